@@ -1,6 +1,7 @@
 import Gtree.Lemmas.SourceRefines
 import Gtree.Lemmas.Validate
 import Gtree.Lemmas.MkdirCounts
+import Gtree.Lemmas.MkInterleave
 /-
   C09 — dry run touches nothing and predicts the real run (model of the repaired code).
 -/
@@ -97,4 +98,28 @@ namespace Gtree
 theorem C09_is_file_is_the_source (exts : List Bytes) (h : Nat) (n : Bytes) (ks : List T) :
     Src.fileConsiderer.isFile ⟨exts⟩ (toNode h (.mk n ks)) = isFileNode exts n (!ks.isEmpty) :=
   isFile_src exts h n ks
+end Gtree
+
+namespace Gtree
+/-- **The dry-run counts predict the real run in the massive mode too, whatever the schedule**: under the
+    hypotheses of `C09_counts_are_created`, after ANY interleaving of the roots' file-system operations every node
+    path the counts stand for exists — as an empty regular file if it was counted as a file, as a directory
+    otherwise. -/
+theorem C09_counts_are_created_massive (f : Fmt) (exts : List Bytes) (ts : List Bytes) (roots : List T) (fs : FS)
+    (hts : GoodList ts) (hg : AllGoodL roots) (hd : DistinctL roots) (hc : fs.Closed)
+    (hnf : ∀ i < ts.length, notFile fs (key (ts.take (i + 1))))
+    (hnone : anyRootExists fs (key ts) (roots.map (growRoot f)) = false)
+    (r : List EOp) (hint : Interleave (roots.map (fun t => opsTree exts ts t)) r) :
+    ∃ s, runE fs r = (s, none) ∧
+      ∀ t ∈ roots, ∀ e ∈ pathsOf exts ts [t], s.lookup (key e.1) = some (if e.2 then Kind.file 0 else Kind.dir) := by
+  have habs := nodes_absent f exts ts roots fs hts hg hc hnone
+  obtain ⟨s, hrun, hsame⟩ := interleave_same exts ts roots fs hts hg hd hnf habs r hint
+  obtain ⟨_, hcounts⟩ := C09_counts_are_created f exts ts roots fs hts hg hd hc hnf hnone
+  refine ⟨s, hrun, fun t ht e he => ?_⟩
+  have := (hcounts t ht).2.2 e he
+  rw [hsame]
+  have h2 := this.2
+  simp only [mkdirRoots, hnone, Bool.false_eq_true, if_false] at h2
+  rw [mkdirRoots_go_forest f exts ts hts roots fs hg] at h2
+  exact h2
 end Gtree
